@@ -71,13 +71,20 @@ def run_set(placement, order=None):
     return rc, plist, se, base
 
 
-def by_source(printed):
-    """key the printed services by their SourcePath file name"""
+def by_source(printed, base=None):
+    """key the printed services by their SourcePath file name; the unit's own directory (which relative paths are
+    resolved against, and which differs between sandboxes and placements) is replaced by a placeholder"""
     out = {}
     for path, text in printed:
         m = re.search(r'^SourcePath=(.*)$', text, re.M)
         src = os.path.basename(m.group(1)) if m else path
-        out[src] = re.sub(r'^SourcePath=.*$', 'SourcePath=<p>', trees.canon_text(text), flags=re.M)
+        t = trees.canon_text(text)
+        if m:
+            unitdir = os.path.dirname(m.group(1))
+            t = t.replace(m.group(1), '<unit>').replace(unitdir + '/', '<unitdir>/').replace(unitdir, '<unitdir>')
+        if base:
+            t = t.replace(base, '<sandbox>')
+        out[src] = t
     return out
 
 
@@ -118,9 +125,9 @@ def oracle(ctx):
     for fs, v, (r0, r1, r2, r3), op, verdict in zip(cases, vs, outs, ops, verdicts):
         res.oracle_evals += 1
         fails = []
-        s0 = by_source(r0[1])
+        s0 = by_source(r0[1], r0[3])
         for label, r in (('with unrelated files added', r1), ('redistributed over search directories', r2), ('created in another order', r3)):
-            s = by_source(r[1])
+            s = by_source(r[1], r[3])
             for name in fs:
                 if name.endswith('.pod'):
                     pass
